@@ -82,7 +82,7 @@ def run_session(args):
 
 def validate_one(recs):
     ok, ln, text, res = tracecheck.validate("TraceSession", "TraceSession", recs, timeout=300)
-    pf = [int(x) for x in re.findall(r'<<"PROPFAIL", (\d+)>>', res.raw_tail)]
+    pf = [int(x) for x in re.findall(r'<<"PROPFAIL", (\d+)>>', res.all_out)]
     return ok, ln, sorted(set(pf)), res
 
 
